@@ -59,6 +59,8 @@ class SingleShooting(SamplingMethod):
 
     def add_constraints(self,stage,opti):
         self.add_constraints_before(stage, opti)
+        if stage._constraints["integrator_roots"]:
+            raise Exception("Constraints with grid='integrator_roots' need a collocation method (e.g. DirectCollocation); " + type(self).__name__ + " has no collocation points to impose them on.")
         # Obtain the discretised system
         F = self.discrete_system(stage)
 
